@@ -220,5 +220,11 @@ DivergenceKind(C, e) ==
           [] e.k = "pairf" -> IF Same(e.f, o.f) THEN "mod:" \o FloatDiff(e.f2, o.f2) ELSE IF Same(e.f2, o.f2) THEN "div:" \o FloatDiff(e.f, o.f) ELSE "both"
           [] e.k = "complex" -> IF Same(e.f, o.f) THEN "imag:" \o FloatDiff(e.f2, o.f2) ELSE "real:" \o FloatDiff(e.f, o.f)
           [] OTHER -> "value")
+(* ------------------------------ operands are immutable ------------------------------ *)
+\* no operation of this table has an effect on its operands: the operand objects re-read after the operation (xa, ya)
+\* denote what they denoted before
+SameOperand(x, xa) == xa.t = x.t /\ (CASE x.t = "f" -> Same(x.f, xa.f) [] x.t = "i" -> x.z = xa.z [] x.t = "c" -> Same(x.re, xa.re) /\ Same(x.im, xa.im) [] OTHER -> FALSE)
+OperandsPreserved(C) == SameOperand(C.x, C.xa) /\ (C.op \in UnaryOps \/ C.op = "fromstr" \/ SameOperand(C.y, C.ya))
+MutationKey(C) == "C15|" \o C.op \o "|" \o FullClass(C) \o "|operand-mutated"
 FindingKey(C, e) == "C15|" \o OperatorName(C) \o "|" \o CaseClass(C, e) \o "|" \o DivergenceKind(C, e)
 =============================================================================
